@@ -23,6 +23,17 @@ FIELDS = [
     ("S\tA\t*\txa:A:x", None, "xa", "A"), ("S\tA\t*\txi:i:1", None, "xi", "i"), ("S\tA\t*\txf:f:1.5", None, "xf", "f"),
     ("S\tA\t*\txz:Z:x", None, "xz", "Z"), ("S\tA\t*\txj:J:[1]", None, "xj", "J"), ("S\tA\t*\txh:H:1A", None, "xh", "H"),
     ("S\tA\t*\txb:B:c,1", None, "xb", "B"), ("H\tVN:Z:1.0", None, "VN", "Z"), ("S\tA\t10\t*\tKC:i:5", None, "KC", "i"),
+    # less travelled record types and fields
+    ("X\tabc\tdef", "gfa2", "record_type", "crt"), ("X\tabc\tdef", "gfa2", "field1", "generic"),
+    ("X\tabc\tdef\txi:i:1", "gfa2", "xi", "i"), ("# a comment", None, "content", "comment"),
+    ("F\tA\tr+\t0\t1\t0\t1\t*", None, "external", "oref2"), ("F\tA\tr+\t0\t5\t0\t1\t*", None, "s_end", "pos2"),
+    ("G\tg\tA+\tB-\t5\t*", None, "disp", "int"), ("G\tg\tA+\tB-\t5\t*", None, "sid1", "oref2"),
+    ("G\tg\tA+\tB-\t5\t*", None, "gid", "optid2"), ("P\tp\tA+,B-\t*", None, "segment_names", "oref1_list"),
+    ("P\tp\tA+,B-\t*", None, "path_name", "pname1"), ("O\to\tA+ B-", None, "items", "oref2_list"),
+    ("U\tu\tA B", None, "items", "id2_list"), ("U\tu\tA B", None, "pid", "optid2"),
+    ("C\tA\t+\tB\t-\t1\t*", None, "overlap", "cigar1"), ("C\tA\t+\tB\t-\t1\t*", None, "to_orient", "orient"),
+    ("E\t*\tA+\tB-\t0\t1\t0\t1\t*", None, "sid2", "oref2"), ("S\tA\t10\t*", None, "slen", "uint"),
+    ("H\tVN:Z:1.0\txz:Z:a", None, "xz", "Z"), ("L\tA\t+\tB\t-\t*\tMQ:i:3", None, "MQ", "i"),
 ]
 VALID_VALUES = {
     "name1": ["B", "x1", "a:b"], "seq1": ["ACGT", "*", "acgtn"], "i": ["5", "-3", "+7"], "id2": ["B", "*a", "x,y"],
@@ -30,6 +41,10 @@ VALID_VALUES = {
     "aln2": ["*", "3M1D", "1,2,3", "7"], "optid2": ["e1", "*", "9"], "pos2": ["3", "5$", "1"], "optint": ["*", "0", "44", "-2"],
     "cigar1_list": ["*", "2M", "1M,*"], "A": ["y", "!"], "f": ["2.5", "1e-3", "-.5"], "Z": ["a b", "~"], "J": ["[2]", "{\"a\": [1]}"],
     "H": ["00", "ABCDEF"], "B": ["c,1,-2", "f,1.5", "I,4000000000"],
+    "crt": ["Y", "Xy", "x1", "@"], "generic": ["abc", "a b", "*", "x:i:y z"], "comment": ["another", " x y", ""],
+    "oref2": ["x-", "r2+", "a,b+"], "int": ["0", "-7", "44"], "oref1_list": ["A+", "A+,B-,C+"],
+    "pname1": ["p1", "a+,b", "x:y"],
+    "oref2_list": ["A+", "A+ B- e1+"], "id2_list": ["A", "A B c1"], "uint": ["0", "12"],
 }
 INVALID_VALUES = {
     "name1": ["*a", "a b", "a+,b", ""], "seq1": ["AC GT", "12", ""], "i": ["1.5", "x", "", "1_0"], "id2": ["a b", ""],
@@ -37,6 +52,10 @@ INVALID_VALUES = {
     "aln2": ["3X", "1,,2", "M", ""], "optid2": ["a b", ""], "pos2": ["$", "-1", "1$$", "a"], "optint": ["x", "1.5", ""],
     "cigar1_list": ["3", "2M,,1M", ""], "A": ["ab", "", " "], "f": ["inf", "x", "1e", ""], "Z": ["a\tb", "a\nb", ""],
     "J": ["{", "[1", "a\tb", ""], "H": ["1", "1a", "GG", ""], "B": ["c,128", "C,-1", "x,1", "c", "f,x", ""],
+    "crt": ["a b", "S", "E", "", "a\tb"], "generic": ["a\tb", "a\nb"], "comment": ["a\nb"],
+    "oref2": ["x", "a b+", "", "+"], "int": ["x", "1.5", ""], "oref1_list": ["A", "A+,B", "", "A+ B-"],
+    "oref2_list": ["A", "", "A+\tB-"], "id2_list": ["", "a\tb"], "uint": ["x", "1.5", ""],
+    "pname1": ["*a", "=x", "a b", ""],
 }
 
 
@@ -66,7 +85,7 @@ def cases(rng, tier, shard, nshards):
             yield {"k": "mono", "lines": lines, "version": rng.choice([None, "gfa1", "gfa2"])}
         elif r < 0.62:
             # a new tag: assignments which are refused, then a valid value of another class
-            yield {"k": "assign-seq", "line": rng.choice([f[0] for f in FIELDS]), "tag": V.tagname(rng),
+            yield {"k": "assign-seq", "line": rng.choice([f[0] for f in FIELDS if not f[0].startswith("#")]), "tag": V.tagname(rng),
                    "refused": [rng.choice(sorted(BAD_PY)) for _ in range(rng.randint(1, 2))],
                    "then": rng.choice(sorted(GOOD_PY)), "vlevel": rng.randrange(4), "how": rng.choice(["set", "attr"])}
         else:
@@ -80,7 +99,8 @@ def cases(rng, tier, shard, nshards):
 
 def run_assign_seq(case, ctx):
     lvl, tag = case["vlevel"], case["tag"]
-    line = gfapy.Line(case["line"], vlevel=lvl)
+    ver = {f[0]: f[1] for f in FIELDS}.get(case["line"])
+    line = gfapy.Line(case["line"], vlevel=lvl, **({"version": ver} if ver else {}))
 
     def assign(v):
         if case["how"] == "attr":
@@ -208,7 +228,7 @@ def run_mono(case, ctx):
 def run_assign(case, ctx):
     text, version, field, kind = FIELDS[case["field"]]
     lvl, value, valid = case["vlevel"], case["value"], case["valid"]
-    line = gfapy.Line(text, vlevel=lvl)
+    line = gfapy.Line(text, vlevel=lvl, **({"version": version} if version else {}))
     cell = "%s.%s=%r (level %d, %s)" % (text.split("\t")[0], field, value, lvl, case["how"])
 
     def assign():
